@@ -1,6 +1,4 @@
-import Op2Proofs.Clm.Walk
-import Op2Proofs.Clm.Reader
-import Op2Proofs.SortLemmas
+import Op2Proofs.Clm.Create
 import Op2Model.Gen.Constants
 /-!
 # C05, part clm — the CLM reader and the WAV intake of CLM creation are safe on arbitrary bytes
@@ -30,22 +28,7 @@ theorem C05_walk_fuel_independent (c : Content) (tag : Bytes) (fuel pos k : Nat)
 
 /-- arbitrary bytes offered as WAVs to CLM creation end in an error or an archive — never in a hang -/
 theorem C05_create_returns (files : List (Bytes × Content)) (hlen : ∀ f ∈ files, f.2.len < 2 ^ 63) :
-    create files ≠ .hang := by
-  unfold create
-  have hs : ∀ c ∈ (Str.sortCI (fun f : Bytes × Content => Path.getFilename f.1) files).map (·.2), c.len < 2 ^ 63 := by
-    intro c hc
-    obtain ⟨f, hf, rfl⟩ := List.mem_map.mp hc
-    exact hlen f ((Str.sortCI_perm _ files).mem_iff.mp hf)
-  have := intakeAll_ne_hang _ hs
-  simp only
-  split
-  · rename_i e; exact absurd e this
-  · simp
-  · split; · simp
-    split; · simp
-    split; · simp
-    split; · simp
-    split <;> simp
+    create files ≠ .hang := create_ne_hang files hlen
 
 /-- non-vacuity: on a real two-chunk file the walk passes a chunk and finds `data` -/
 example : find ⟨tagRIFF ++ encU32 28 ++ tagWAVE ++ [0x4c, 0x49, 0x53, 0x54] ++ encU32 2 ++ [1, 2] ++ tagData ++ encU32 2 ++ [7, 8], 0⟩ tagData
